@@ -143,6 +143,7 @@ func (w *WebsocketConnection) handlePing() {
 func (w *WebsocketConnection) closeWithError(err error, reason string) {
 	logging.Log().Debug(w.remoteSki, reason, err)
 	w.setConnClosedError(err)
+	w.close()
 	w.dataProcessing.ReportConnectionError(err)
 }
 
@@ -227,10 +228,8 @@ func (w *WebsocketConnection) checkWebsocketMessage(msgType int, data []byte) er
 // close the current websocket connection
 func (w *WebsocketConnection) close() {
 	w.shutdownOnce.Do(func() {
-		if w.isConnClosed() {
-			return
-		}
-
+		// the connection may already be marked as closed with an error,
+		// the pumps and the connection still have to be shut down
 		w.setConnClosedError(nil)
 
 		close(w.closeChannel)
